@@ -86,6 +86,8 @@ def run(ctx):
 
     ctx.rule("R10.1", "stability and priority of the suggest chain (reuse -> fixed -> single -> relative -> independent)")
     suggest_chain(ctx, "R10.1")
+    from rules._suggest import fixed_iff_rule
+    fixed_iff_rule(ctx, "R10.1")
 
     # ------------------------------------------------------------ R10.3
     ctx.rule("R10.3", "stored = returned = cached: one local flows to set_trial_param (via to_internal_repr), the cache and the return; store dominates both")
